@@ -224,6 +224,20 @@ def check_payload(prog, rep, family, rctx, rname, pfield):
     rep.ok("C05.payload", f"{family}: {where} assigns {pfield} from the input with typecode {sorted(tcs)}")
 
 
+def expand_format(fmt: str) -> str:
+    """struct format with byte-order prefix dropped and repeat counts written out ('<2I' -> 'II')"""
+    out, n = "", ""
+    for ch in fmt.lstrip("@=<>!"):
+        if ch.isdigit():
+            n += ch
+        elif ch.isspace():
+            continue
+        else:
+            out += ch * (int(n) if n else 1)
+            n = ""
+    return out
+
+
 def check(prog, rep, tier):
     rep.extra["explanation"] = EXPL
     rep.rule("C05.same-format", "writer and reader use the same struct format", floor=15)
@@ -457,6 +471,21 @@ def check(prog, rep, tier):
                         and (outer_field(e.recv) == "_buckets" or e.recv == bk or (e.recv[0] == "sub" and e.recv[1] == bk)) and e.loops]
                 stored = [e for e in apps if e.args and (direct_input(e.args[0], LABELS) or (e.args[0][0] == "new"))]
                 restored = restored or bool(stored)
+                # the record a bin is decoded with is the record it is written with: the writer emits array('I') words
+                # (fingerprint, and for counting bins the count), so the reader must take each of them as one 32-bit unsigned
+                wcells = [x for x in em if x[0] == "cells"]
+                wtc = wcells[0][1][3][0][1] if wcells and wcells[0][1][0] == "newb" and wcells[0][1][1] == "array" and wcells[0][1][3] else None
+                for e in p.events:
+                    if e.kind == "new" and e.cls == "CountingCuckooBin" and e.loops and wtc:
+                        ups = [a for a in e.args if a[0] == "unp"]
+                        if len(ups) != len(e.args) or len(e.args) != 2:
+                            continue
+                        fm = expand_format(ups[0][1])
+                        if fm != wtc * 2 or ups[1][1] != ups[0][1] or [u[2] for u in ups] != [0, 1] or strip_epochs(ups[0][3]) != strip_epochs(ups[1][3]):
+                            bad = (f"bin record '{ups[0][1]}'", f"a stored bin is decoded as '{ups[0][1]}' slots {[u[2] for u in ups]}, but the writer emits two array('{wtc}') "
+                                   f"words per bin (fingerprint, count): counts or fingerprints that do not fit the narrower field are truncated on load")
+                if bad:
+                    break
             if not bad and not restored:
                 bad = ("no fingerprint restored", "no path of the loader appends a stored fingerprint to the buckets")
             if bad:
